@@ -3,8 +3,8 @@
   hook inputs, the model prints what the hook does.
 
     heap <p0,p1,…>                      → pop <i…>          indices of the inputs in pop order
-    elect <h> <minSelf> <top> <blockVotesDiff> recs=<addr:pub:kt:power,…> act=<addr,…>
-          frozen=<addr,…> flagged=<addr,…> purge=<addr:h,…> st=<addr:0|1:h,…>
+    elect <h> <minSelf> <top> recs=<addr:pub:kt:power,…> act=<addr,…>
+          frozen=<addr,…> flagged=<addr,…> purge=<addr:h,…> st=<addr:0|1:h,…> cur=<addr:power,…>
                                         → upd=<pub:kt:power,…> st=<addr:0|1:h,…> del=<addr,…> purge=<addr:h,…> n=<activeCount>
     tm set=<key:power,…> upd=<key:kt:power,…>
                                         → ok <key:power,…> | err <class>
@@ -97,19 +97,19 @@ def sortBy {α : Type} (key : α → Nat) (l : List α) : List α := l.foldr (in
 
 def electLine (toks : List String) : Option String :=
   match toks with
-  | [h, mn, tp, vd, recs, act, frozen, flagged, purge, st] => do
+  | [h, mn, tp, recs, act, frozen, flagged, purge, st, cur] => do
     let h ← h.toInt?
     let mn ← mn.toInt?
     let tp ← tp.toInt?
-    let vd ← vd.toInt?
     let (recs, n1) ← parseAll parseRec (splitList (← field "recs=" recs))
     let (act, n2) ← parseAll parseAddr (splitList (← field "act=" act))
     let (frozen, n3) ← parseAll parseAddr (splitList (← field "frozen=" frozen))
     let (flagged, n6) ← parseAll parseAddr (splitList (← field "flagged=" flagged))
     let (purge, n4) ← parseAll parsePurge (splitList (← field "purge=" purge))
     let (st, n5) ← parseAll parseStatus (splitList (← field "st=" st))
-    let t : Names := n1 ++ n2 ++ n3 ++ n4 ++ n5 ++ n6
-    let o := elect ⟨h, mn, tp, recs, act, maliciousSet h vd frozen flagged, purge, st⟩
+    let (cur, n7) ← parseAll parsePurge (splitList (← field "cur=" cur))
+    let t : Names := n1 ++ n2 ++ n3 ++ n4 ++ n5 ++ n6 ++ n7
+    let o := elect ⟨h, mn, tp, recs, act, maliciousSet frozen flagged, purge, st, cur⟩
     pure (s!"upd={joinList (o.updates.map (showUpd t))} " ++
           s!"st={joinList ((sortBy (·.1) o.statusW).map (showStatus t))} " ++
           s!"del={joinList ((sortBy id o.deleted).map (nameOf t))} " ++
